@@ -1527,10 +1527,10 @@ class Exec:
 
 def parse_call(term):
     """`lhs = callee(args) -> rest;`  ->  (lhs, callee, argstr, rest) with the argument list found by bracket matching from the right"""
-    k = term.find(') -> ')
+    k = term.rfind(') -> ')
     while k != -1:
         head, rest = term[:k + 1], term[k + 5:]
-        if ' = ' in head:
+        if ' = ' in head and re.match(r'(\[return: |unwind |bb\d+;?$)', rest):
             depth = 0
             for i in range(len(head) - 1, -1, -1):
                 ch = head[i]
@@ -1541,7 +1541,7 @@ def parse_call(term):
                     if depth == 0:
                         lhs, callee = head[:i].split(' = ', 1)
                         return lhs, callee, head[i + 1:-1], rest.rstrip(';')
-        k = term.find(') -> ', k + 1)
+        k = term.rfind(') -> ', 0, k)
     return None
 
 
